@@ -8,7 +8,7 @@ reg('C01', engine='h_planners',
          'path with >= 3 states in a world with >= 1 obstacle was examined by the oracle; distinct = (world seed, planner, case seed)',
     floors={'quick': {'solutions_checked': 200, 'dense_samples': 200000, 'strict_rechecks': 1200},
             'thorough': {'solutions_checked': 1500}},
-    case_timeout={'quick': 900, 'thorough': 1800},
+    case_timeout={'quick': 300, 'thorough': 600}, case_wall_max={'quick': 120, 'thorough': 600},
     level_text='every solution reported by every planner variant on the generated worlds is re-validated independently '
                '(start, bounds, goal/flag/status/difference agreement, dense invalid-stretch rule, strict checkMotion re-check)',
     technique='runtime monitoring: independent re-validation oracle over planner executions under ASan+UBSan')
